@@ -155,6 +155,15 @@ def constant_or_linear_in_a_variable_gives_zero(S):
     expect("laplacian-x", lambda: S.call(DO + "laplacian", u, x), exact["pxx"])
     expect("laplacian-t", lambda: S.call(DO + "laplacian", u, t), exact["ptt"])
     expect("grad-x-t", lambda: S.call(DO + "grad", u, x, t), lambda q: core.select_comp(q[1][0], 2, [lambda: z3.RealVal(0) + exact["px"](q), lambda: z3.RealVal(0) + exact["pt"](q)]))
+    # several variables, in both orders, plus a variable p the output does not depend on at all: a variable whose
+    # contribution vanishes is SKIPPED, the contributions of the variables after it are still summed
+    p = leaf(S, "p", N, 1)
+    both = lambda q: z3.RealVal(0) + exact["pxx"](q) + exact["ptt"](q)
+    expect("laplacian-x-t", lambda: S.call(DO + "laplacian", u, x, t), both)
+    expect("laplacian-t-x", lambda: S.call(DO + "laplacian", u, t, x), both)
+    expect("laplacian-p-x-t", lambda: S.call(DO + "laplacian", u, p, x, t), both)
+    expect("laplacian-x-p-t", lambda: S.call(DO + "laplacian", u, x, p, t), both)
+    expect("grad-p-x", lambda: S.call(DO + "grad", u, p, x), lambda q: core.select_comp(q[1][0], 2, [lambda: z3.RealVal(0), lambda: z3.RealVal(0) + exact["px"](q)]))
 
 
 @scenario("C03", [DO + "div", DO + "matrix_div", DO + "jac"], configs=["1,1,1", "2,1,1", "1,2"], bounded=BOUND + "; several derivative variables of the listed dimensions")
